@@ -377,4 +377,71 @@ theorem run_mt (w : World) (s : Source) (sp : SP) (c : Cache) (d : CData) :
   simp only [run]
   split <;> rfl
 
+/-- everything a log delivery implies, whatever label the stored position carries:
+    it starts at the stored offset (not negative), the source granted CONTINUE for
+    an id it serves, every byte from there on is the current history's, and if
+    neither the stored position nor the cache is labelled with the current id the
+    source has checked the offset against its switch offset. -/
+theorem stream_facts {w : World} {s : Source} {sp : SP} {c : Cache} {d : CData}
+    (hs : SourceWF s) (hc : CacheWF c) (hok : CacheOK w c d) (hag : Agree w s)
+    {start : Int} {byte : Int → UInt8} (h : (run w s sp c d).delivery = .stream start byte) :
+    start = sp.offset ∧ 0 ≤ sp.offset ∧ (run w s sp c d).mt.ps.full = false ∧
+    (sp.runId = s.id1 ∨ sp.runId = s.id2) ∧
+    (∀ n, sp.offset ≤ n → byte n = w.hist s.id1 n) ∧
+    (sp.runId ≠ s.id1 → c.runId ≠ s.id1 → sp.offset ≤ s.switchOff) := by
+  rcases run_spec (w := w) (sp := sp) (d := d) hs hc with hF | hK | hC
+  · rw [hF.delivery] at h; cases h
+  · have hcid := hK.cid
+    rcases hK.read with ⟨_, hdel, hout, hle, hlow⟩ | ⟨_, _, _, _, hdel⟩
+    · rw [hdel] at h
+      cases h
+      have hconv : ∀ n, 0 ≤ n → n < c.latest → w.hist c.runId n = w.hist s.id1 n := by
+        intro n h0 hn
+        rcases hcid with e | ⟨e, hle⟩
+        · rw [e]
+        · rw [e]; exact hag n h0 (by omega)
+      have h0 : 0 ≤ sp.offset := by
+        cases ha : c.aof with
+        | none => rw [ha] at hlow; simp only at hlow; have := hK.lat_nonneg; omega
+        | some p =>
+          obtain ⟨l, rr⟩ := p
+          rw [ha] at hlow; simp only at hlow
+          have h2 := hc.aof_ok; rw [ha] at h2; simp only at h2
+          omega
+      refine ⟨rfl, h0, hK.full, hout, ?_, ?_⟩
+      · intro n hn
+        rw [hK.data]
+        simp only
+        by_cases hl : c.latest ≤ n
+        · rw [if_pos hl]; congr 1; omega
+        · rw [if_neg hl]
+          cases ha : c.aof with
+          | none => rw [ha] at hlow; simp only at hlow; omega
+          | some p =>
+            obtain ⟨l, rr⟩ := p
+            rw [ha] at hlow; simp only at hlow
+            have h1 := hok.aof_hist; rw [ha] at h1; simp only at h1
+            have hlat := latest_aof ha
+            rw [h1 n (by omega) (by omega)]
+            exact hconv n (by omega) (by omega)
+      · intro _ hc1
+        rcases hcid with e | ⟨_, hsw⟩
+        · exact absurd e hc1
+        · omega
+    · rw [hdel] at h; cases h
+  · rw [hC.delivery] at h
+    cases h
+    refine ⟨rfl, hC.off_nonneg, hC.full, ?_, ?_, ?_⟩
+    · rcases hC.sid with e | ⟨e, _⟩
+      · exact Or.inl e
+      · exact Or.inr e
+    · intro n hn
+      rw [hC.data]
+      simp only
+      rw [if_pos hn]; congr 1; omega
+    · intro h1 _
+      rcases hC.sid with e | ⟨_, hsw⟩
+      · exact absurd e h1
+      · exact hsw
+
 end GunYu.Psync
